@@ -17,6 +17,8 @@ ASSUMPTIONS = [
     "process zone changed only through os.environ['TZ'] + time.tzset() and restored",
     "tzinfos callables are pure functions of (name, offset)",
     "UnknownTimezoneWarning is observed through warnings.catch_warnings(record=True)",
+    "a failing oracle case is KNOWN only if the implementation's answer equals the Lean model's answer on it and the observed "
+    "result is exactly the listed symptom; anything else inside a known class is a VIOLATION",
 ]
 RULE = ("partial texts built from a KNOWN set of fields (20 shapes: time only, month only, month+year, weekday only, weekday+time, "
         "weekday+month, h/m/s units, MM/DD, day only, full date ...) x 10 defaults incl. day 29/30/31, Feb 29, 0001-01-01, "
@@ -192,6 +194,9 @@ def correspondence(ctx):
         L.set_tz(prev)
 
 
+TZ_NAMED = ["UTC+3", "GMT-2", "UTC0", "XXX0UTC,M3.5.0,M10.5.0"]     # zones CALLED UTC / GMT by a POSIX string, at any offset
+
+
 def two_markers(case):
     """D-C15 class: at least two AM/PM words after an hour (decidable on the text, stock tables)"""
     from dateutil.parser import _parser
@@ -207,15 +212,31 @@ def two_markers(case):
     return n >= 2
 
 
+def second_marker_exact(case, strict, fuzzy, model_strict, model_fuzzy):
+    """exactly D-C15-second-ampm-marker: the model says the same as the implementation in both modes, the text has a second
+    AM/PM word after an hour, and the two results differ in nothing but the hour, by the 12 h the second marker explains"""
+    if strict != model_strict or fuzzy != model_fuzzy or not two_markers(case):
+        return False
+    if not (strict.startswith("ok ") and fuzzy.startswith("ok ")):
+        return False
+    a, b = strict.split(" | "), fuzzy.split(" | ")
+    fa, fb = a[0].split()[1:], b[0].split()[1:]
+    if a[1:] != b[1:] or fa[:3] != fb[:3] or fa[4:] != fb[4:]:
+        return False
+    return (int(fa[3]) - int(fb[3])) % 24 == 12
+
+
 def oracle(ctx):
     from dateutil import parser as P, tz
     rng = ctx.subrng("oracle")
     prev = L.set_tz("UTC")
     try:
-        envs = G.TZ_ENVS if ctx.budget(0, 1) else ["UTC", "America/New_York", "Europe/London", "Asia/Kolkata", "Australia/Lord_Howe"]
+        envs = (G.TZ_ENVS + TZ_NAMED) if ctx.budget(0, 1) else ["UTC", "America/New_York", "Europe/London", "Asia/Kolkata",
+                                                                  "Australia/Lord_Howe", "UTC+3", "GMT-2", "UTC0"]
+        known_counts = {}
         for tzenv in envs:
             L.set_tz(tzenv)
-            pairs = gen_calls(ctx, rng, ctx.budget(3000, 30000))
+            pairs = gen_calls(ctx, rng, ctx.budget(1500 if tzenv in TZ_NAMED else 3000, 30000))
             answers = []
             for c, meta in pairs:
                 ans, _, raw = L.run_impl(c, raw=True)
@@ -255,6 +276,21 @@ def oracle(ctx):
                     name_is_local = zp[0] is not None and zp[0] in __import__("time").tzname
                     if not name_is_local and raw.utcoffset() != datetime.timedelta(seconds=zp[1]):
                         ctx.violation("numeric offset / GMT+h meaning", c.describe(), {"impl": ans, "meaning": zp})
+                    # "UTC designators and zero offsets as UTC": whatever the process zone is called, the result must be at
+                    # offset zero.  Where the process zone is CALLED like the designator but is elsewhere it is not: known
+                    # finding D-C15-local-zone-named-utc (here impl == model already holds: got == ez was tested above)
+                    if zp[1] == 0 and raw.utcoffset() != datetime.timedelta(0):
+                        case = c.describe()
+                        exact = (name_is_local and isinstance(raw.tzinfo, tz.tzlocal)
+                                 and raw.utcoffset() == exp.replace(tzinfo=tz.tzlocal(), fold=raw.fold).utcoffset())
+                        case["known_class"] = "D-C15-local-zone-named-utc" if exact else None
+                        if exact:
+                            ctx.count("known_class_D-C15-local-zone-named-utc_hits")
+                            known_counts["lz"] = known_counts.get("lz", 0) + 1
+                            if known_counts["lz"] > 25:
+                                continue
+                        ctx.violation("a UTC designator / zero offset must give offset zero", case,
+                                      {"impl": "ok " + ans.split(" | ")[1], "model": ez, "meaning": zp})
             # ---- (d) ignoretz: same wall time, no zone
             for (c, meta), (ans, raw) in zip(pairs, answers):
                 if rng.random() < 0.3 and not c.ignoretz:
@@ -288,7 +324,10 @@ def oracle(ctx):
                         ctx.violation("fuzzy parse of a sentence containing one date must return that date", case, {"date": inner, "strict": strict, "fuzzy": fz})
                     if f2 != strict:
                         c2 = L.Call(inner, default=d, fuzzy=True).describe()
-                        ctx.violation("text accepted without fuzzy must give the same result with fuzzy", c2, {"strict": strict, "fuzzy": f2})
+                        ms, mf = L.model_answers(ctx, [L.Call(inner, default=d), L.Call(inner, default=d, fuzzy=True)])
+                        c2["known_class"] = "D-C15-second-ampm-marker" if second_marker_exact(c2, strict, f2, ms, mf) else None
+                        ctx.violation("text accepted without fuzzy must give the same result with fuzzy", c2,
+                                      {"strict": strict, "fuzzy": f2, "model_strict": ms, "model_fuzzy": mf})
                 if fz.startswith("ok ") != ft.startswith("ok ") or (fz.startswith("ok ") and fz.split(" | ")[:2] != ft.split(" | ")[:2]):
                     ctx.violation("fuzzy_with_tokens must return the same datetime as fuzzy", case, {"fuzzy": fz, "with_tokens": ft})
                 if ft.startswith("ok "):
@@ -320,12 +359,15 @@ def oracle(ctx):
                 ctx.count("strict_accepted_texts")
                 if f2 != strict:
                     case = L.Call(t, default=d, fuzzy=True).describe()
-                    if two_markers(case):
+                    ms, mf = L.model_answers(ctx, [L.Call(t, default=d), L.Call(t, default=d, fuzzy=True)])
+                    exact = second_marker_exact(case, strict, f2, ms, mf)
+                    case["known_class"] = "D-C15-second-ampm-marker" if exact else None
+                    if exact:
                         ctx.count("known_class_D-C15_hits")
                         if ctx.hist["known_class_D-C15_hits"] > 25:
-                            continue                     # keep the (capped) violation list for anything else
+                            continue                     # every one of them was verified to be exactly the listed symptom
                     ctx.violation("text accepted without fuzzy must give the same result with fuzzy", case,
-                                  {"strict": strict, "fuzzy": f2})
+                                  {"strict": strict, "fuzzy": f2, "model_strict": ms, "model_fuzzy": mf})
         # ---- (c') the local-name rows after process-zone switches: zones sharing an abbreviation, time.tzset() between calls
         #      and back; every answer against the model for that zone and a fresh process whose only zone that was
         L.zone_switch_run(ctx, ctx.subrng("zone-switch"), G.ZONE_GROUPS, ctx.budget(40, 400),
@@ -343,8 +385,11 @@ def oracle(ctx):
         a2, _, _ = L.run_impl(L.Call("10:30 am pm", fuzzy=True))
         ctx.case(("witness", "10:30 am pm"))
         if a1 != a2:
-            ctx.violation("text accepted without fuzzy must give the same result with fuzzy",
-                          L.Call("10:30 am pm", fuzzy=True).describe(), {"strict": a1, "fuzzy": a2})
+            wc = L.Call("10:30 am pm", fuzzy=True).describe()
+            ms, mf = L.model_answers(ctx, [w, L.Call("10:30 am pm", fuzzy=True)])
+            wc["known_class"] = "D-C15-second-ampm-marker" if second_marker_exact(wc, a1, a2, ms, mf) else None
+            ctx.violation("text accepted without fuzzy must give the same result with fuzzy", wc,
+                          {"strict": a1, "fuzzy": a2, "model_strict": ms, "model_fuzzy": mf})
         ctx.sample({"text": "10:30 am pm", "strict": a1, "fuzzy": a2})
         ctx.sample({"text": "Feb (default 2001-01-31)", "impl": L.run_impl(L.Call("Feb", default=datetime.datetime(2001, 1, 31)))[0]})
         ctx.sample({"text": "10:00 GMT+3", "impl": L.run_impl(L.Call("10:00 GMT+3"))[0]})
@@ -354,7 +399,12 @@ def oracle(ctx):
 
 
 KNOWN = {
-    "D-C15-second-ampm-marker": lambda v: v["what"].startswith("text accepted without fuzzy") and two_markers(v["case"]),
+    # known only if the implementation's answers equal the model's (both modes) and the symptom is exactly the listed one
+    "D-C15-second-ampm-marker": lambda v: v["what"].startswith("text accepted without fuzzy")
+    and v["case"].get("known_class") == "D-C15-second-ampm-marker"
+    and v["detail"].get("strict") == v["detail"].get("model_strict") and v["detail"].get("fuzzy") == v["detail"].get("model_fuzzy"),
+    "D-C15-local-zone-named-utc": lambda v: v["case"].get("known_class") == "D-C15-local-zone-named-utc"
+    and v["detail"].get("impl") is not None and v["detail"].get("impl") == v["detail"].get("model"),
 }
 
 
